@@ -1,17 +1,30 @@
 #!/usr/bin/env python3
 """Confirms an independently written breaking change and runs the checks against it.
-usage: seedcheck.py <id> <property> <patch> <demo-file> <demo-rel-dir> <run-regex> <needs> -- <check>..."""
+usage: seedcheck.py <id> <property> <patch> <demo-file> <demo-rel-dir> <run-regex> <needs> -- <check>...
+       seedcheck.py --again <id> -- <check>...      (re-run a kept change from /verif/seeded/<id>)"""
 import subprocess, sys, os, json, shutil, time
 ENV = dict(os.environ, GOFLAGS="-mod=mod", GOPROXY="off", GOSUMDB="off", GOTOOLCHAIN="local")
 def sh(cmd, cwd=None, timeout=3600):
     p = subprocess.run(cmd, shell=True, cwd=cwd, env=ENV, capture_output=True, text=True, timeout=timeout)
     return p.returncode, p.stdout + p.stderr
-sid, prop, patch, demo, reldir, runre, needs = sys.argv[1:8]
+if sys.argv[1] == "--again":
+    sid = sys.argv[2]
+    d0 = "/verif/seeded/" + sid
+    m0 = json.load(open(d0 + "/meta.json"))
+    prop, needs, reldir, runre = m0["property"], m0["needs_to_manifest"], m0["demo_dir"], m0["demo_run"]
+    os.makedirs("/tmp/seed_again", exist_ok=True)
+    patch = "/tmp/seed_again/%s.patch" % sid
+    shutil.copy(d0 + "/patch.diff", patch)
+    txt = [f for f in os.listdir(d0) if f.endswith("_test.go.txt")][0]
+    demo = "/tmp/seed_again/" + txt[:-4]
+    shutil.copy(d0 + "/" + txt, demo)
+else:
+    sid, prop, patch, demo, reldir, runre, needs = sys.argv[1:8]
 checks = sys.argv[sys.argv.index("--") + 1:]
 wt = "/tmp/sv_" + sid
 sh("git -C /repo worktree remove --force " + wt)
 rc, out = sh("git -C /repo worktree add -q --detach %s HEAD" % wt); assert rc == 0, out
-meta = dict(id=sid, property=prop, needs_to_manifest=needs, base_commit=sh("git -C /repo rev-parse --short HEAD")[1].strip(), ran=[])
+meta = dict(id=sid, property=prop, needs_to_manifest=needs, demo_dir=reldir, demo_run=runre, base_commit=sh("git -C /repo rev-parse --short HEAD")[1].strip(), ran=[])
 def rec(what, rc, out):
     meta["ran"].append(dict(cmd=what, exit=rc, tail=out.strip().splitlines()[-3:]))
     print("  [%s] exit=%d %s" % (what, rc, (out.strip().splitlines() or [''])[-1][:160]))
@@ -30,7 +43,7 @@ try:
     meta["checks"] = {}
     for c in checks:
         t0 = time.time()
-        rc, out = sh(os.environ.get("VERIF_BIN", "./bin/verif") + " check %s --tier quick --repo %s --no-evidence" % (c, wt), cwd="/verif")
+        rc, out = sh(os.environ.get("VERIF_BIN", "./bin/verif") + " check %s --tier quick --repo %s --no-evidence" % (c, wt) + ((" --verif " + os.environ["VERIF_DIR"]) if os.environ.get("VERIF_DIR") else ""), cwd="/verif")
         viol = [l for l in out.splitlines() if l.startswith("VIOLATION")]
         meta["checks"][c] = dict(exit=rc, violation_lines=len(viol), wall_s=round(time.time() - t0), output_tail=out.strip().splitlines()[-4:])
         print("  check %s: exit=%d violations=%d (%ds)" % (c, rc, len(viol), time.time() - t0))
